@@ -7,7 +7,7 @@ package car
 //@ func ReadHeader
 //@   modifies pos(br)
 //@   ensures eof_clean [C02]: err == io.EOF ==> pos(br) == old(pos(br))
-//@   ensures consumed [C01]: err == nil ==> result0 != nil && pos(br) == old(pos(br)) + vsize(enclen(result0)) + enclen(result0)
+//@   ensures consumed [C01]: err == nil ==> result0 != nil && pos(br) == old(pos(br)) + vsize(rawlen(result0)) + rawlen(result0)
 
 //@ func WriteHeader
 //@   modifies wn(w)
